@@ -69,7 +69,7 @@ def load_check(pid):
 
 
 def _worker(args):
-    pid, shape, tier, seed = args
+    pid, shape, tier, seed, shape_budget = args
     t0 = time.time()
     from sx import core, lifting
 
@@ -79,8 +79,11 @@ def _worker(args):
         lifting.install(lift=check.lift)
         check.setup(shape, False)
         budget_s, claim_ms = check.budget(tier)
+        if shape_budget:
+            budget_s = min(budget_s, shape_budget)
         E = core.Engine(claim_timeout_ms=claim_ms, seed=seed)
         E.fl_functional = check.fl_functional
+        E.shape_budget_s = budget_s
         outcomes = E.explore(lambda e: check.body(e, shape), max_paths=check.max_paths, budget_s=budget_s)
         out["paths"] = E.paths
         out["aborted"] = sum(1 for _, o in outcomes if o == "abort")
@@ -105,6 +108,56 @@ def _worker(args):
         out["error"] = "".join(traceback.format_exception(type(e), e, e.__traceback__))[-3000:]
     out["wall_s"] = round(time.time() - t0, 3)
     return out
+
+
+def _child(conn, task):
+    try:
+        conn.send(_worker(task))
+        conn.close()
+    finally:
+        os._exit(0)
+
+
+def _run_shapes(tasks, jobs, hard_timeout):
+    """One forked process per shape, at most `jobs` at a time.  A worker that dies (crash of the interpreter, kill) or
+    exceeds the hard time-out yields an error result for its shape instead of hanging the run."""
+    from multiprocessing import connection
+
+    ctx = mp.get_context("fork")
+    pending = list(enumerate(tasks))
+    running, results = {}, [None] * len(tasks)
+
+    def failed(task, why):
+        return {"shape": task[1], "claims": [], "limits": [], "paths": 0, "error": why, "obs": [], "samples": []}
+
+    while pending or running:
+        while pending and len(running) < jobs:
+            i, t = pending.pop(0)
+            r, w = ctx.Pipe(duplex=False)
+            p = ctx.Process(target=_child, args=(w, t), daemon=True)
+            p.start()
+            w.close()
+            running[i] = (p, r, time.time(), t)
+        ready = connection.wait([v[1] for v in running.values()], timeout=1.0)
+        for i, (p, r, t0, t) in list(running.items()):
+            if r in ready:
+                try:
+                    results[i] = r.recv()
+                except (EOFError, OSError):
+                    p.join(5)
+                    results[i] = failed(t, f"worker process died without a result (exit code {p.exitcode}) - e.g. a crash of the interpreter while running the code under test")
+                r.close()
+                p.join(10)
+                if p.is_alive():
+                    p.kill()
+                del running[i]
+            elif time.time() - t0 > hard_timeout:
+                p.kill()
+                p.join(5)
+                r.close()
+                results[i] = failed(t, f"worker exceeded the hard time-out of {int(hard_timeout)} s and was killed")
+                del running[i]
+    return results
 
 
 def run_concrete(pid, shape, inputs):
@@ -219,9 +272,13 @@ def main(argv=None):
     shapes = check.shapes(tier)
     if a.shape:
         shapes = [s for s in shapes if a.shape in json.dumps(s)]
-    ctx = mp.get_context("fork")
-    with ctx.Pool(processes=max(1, min(a.jobs, len(shapes))), maxtasksperchild=1) as pool:
-        results = pool.map(_worker, [(pid, s, tier, seed) for s in shapes], chunksize=1)
+    # wall-clock target of the whole run (thorough tier: VERIF_WALL seconds, default 900): every shape gets an equal share of
+    # worker time; a shape that uses its share up is reported as "exploration incomplete" (inconclusive), never as held
+    wall_target = int(os.environ.get("VERIF_WALL", "900" if tier == "thorough" else "0") or 0)
+    jobs = max(1, min(a.jobs, len(shapes)))
+    shape_budget = max(20, int(0.8 * wall_target * jobs / max(1, len(shapes)))) if wall_target else 0
+    hard = 1.5 * (shape_budget or check.budget(tier)[0]) + 180
+    results = _run_shapes([(pid, s, tier, seed, shape_budget) for s in shapes], jobs, hard)
 
     os.makedirs(os.path.join(VERIF, "evidence"), exist_ok=True)
     os.makedirs(os.path.join(VERIF, "replays"), exist_ok=True)
@@ -254,6 +311,11 @@ def main(argv=None):
             inconclusive.append({"shape": r["shape"], "claim": "*", "status": "exploration incomplete: " + r["incomplete"]})
         if r.get("n_limits"):
             inconclusive.append({"shape": r["shape"], "claim": "*", "status": f"{r['n_limits']} paths hit an engine limit, e.g. {r['limits'][:2]}"})
+            # a limit that is not a matter of time (an operation the engine cannot encode) means the current tree cannot be
+            # decided on those paths: that is reported as a harness error (exit 3: no verdict), never as "held"
+            hard = [why for _p, why in r["limits"] if not any(t in why for t in ("time limit", "solver unknown", "Unknown", "time budget", "'unknown' feasibility"))]
+            if hard:
+                errors.append(f"engine limit (no verdict for these paths) in shape {json.dumps(r['shape'])}: {hard[0][:200]} ({len(hard)} of the first {len(r['limits'])} limited paths)")
 
     # vacuity: every twin name must be reached on at least one path of its shape
     for (sh, name), sts in twins.items():
@@ -312,7 +374,7 @@ def main(argv=None):
     xmismatch = []
     sat_names = {(json.dumps(sh, sort_keys=True), c["name"]) for sh, c in sat_claims}
     if xitems:
-        xp = os.path.join(VERIF, "replays", f".{pid}_xcheck.json")
+        xp = os.path.join(VERIF, "replays", f".{pid}_xcheck_{os.getpid()}.json")
         json.dump(xitems, open(xp, "w"))
         chunks = [xitems[i::a.jobs] for i in range(a.jobs) if xitems[i::a.jobs]]
         procs = []
@@ -401,6 +463,8 @@ def main(argv=None):
             "modules_lifted_from_current_source": lifted,
             "bounds": check.bounds.get(tier, check.bounds) if isinstance(check.bounds, dict) else check.bounds,
             "shapes": len(shapes),
+            "wall_target_s": wall_target or None,
+            "per_shape_time_budget_s": shape_budget or None,
             "paths_explored": sum(r.get("paths", 0) for r in results),
             "paths_infeasible": sum(r.get("aborted", 0) for r in results),
             "queries_by_status": status_count,
